@@ -236,8 +236,9 @@ Print Assumptions C01_tng_connect_halves.
 (* [cc_*] = CobComp, [cob_*] = Cob; chi = 2 - 2 genus - nbdr_comps; deg = chi - #endpts/2 - 2 #dots.
    [cob_wf s]: the source tangles of the components are glued tangles and no label lies on more than two of their
    step ends (the components of the cobordisms of one cube edge, before they are connected).
-   NOT modelled / proved: Cob::stack (vertical composition, hence `inv` composing to the identity), the topological
-   meaning of nbdr_comps and of the genus formula (that the asserts g >= 0, g even never fire), cap_off. *)
+   Vertical composition (Cob::stack, identity and inverse laws, cap_off, part_eval, LcCob): Model/TngStack.v and
+   Properties/C01Stack.v.  NOT proved: the topological meaning of nbdr_comps and of the genus formula (that the asserts
+   g >= 0, g even never fire). *)
 
 (* the loops of nbdr_comps terminate (the model's fuel is never the reason for None) *)
 Theorem C01_cob_nbdr_terminates : forall c, nbdr_fuel c <> None.
